@@ -68,7 +68,7 @@ CLAIMS = {
     },
     "C05": {
         "text": "Theorems: the chain check passes iff every chain entry resolves to an intact manifest; with a clean prefix the first damaged entry decides (31 modified, 33 missing/unknown); a missing chain file of an existing ascmhl folder gives 32; loading fails iff some history in the tree (any depth) is damaged, and the error is that of the first damaged store in walk order (a history before its nested ones, siblings by name - independent of the stored order); if loading fails, create, create -sf, verify, verify -dh, diff, flatten, info, info -sf all end with that error, an empty report and NOTHING written. Tie/monitor: for (nested) multi-generation histories x edit kinds {bit flip at first/last/random position, insert, delete, truncate, empty, appended newline, removal, chain removal; mtime preserved or not} x all eight command forms: exit code and byte snapshot of the whole tree before/after, flatten destination absent.",
-        "note": "The detection hypothesis is the specific state 'bytes differ from what the chain entry hashed' (symbolic in the model: a manifest is ok / modified / missing); that differing bytes give a differing C4 is observed on the implementation, not assumed globally. " + COMMON_NOTE,
+        "note": "The detection hypothesis is the specific state 'bytes differ from what the chain entry hashed' (symbolic in the model: a manifest is ok / modified / missing); that differing bytes give a differing C4 is observed on the implementation, not assumed globally.  C05e2e composes the statement with arbitrary runs of creates (C06seq): after any run, damage to any chained manifest (or a missing manifest / chain file) makes all nine command forms refuse with 31/33/32 and write nothing, at any nesting depth; a manifest the chain does not list is not part of the history (D17)." + COMMON_NOTE,
         "technique": "Lean 4 proof (first-fault lemma over the chain fold and the sorted walk) + fault-injection differential + snapshot monitor",
         "design_ref": "7 C05",
     },
@@ -110,7 +110,7 @@ CLAIMS = {
     },
     "C10": {
         "text": "Theorems about the writer (toXml), the event stream and the event-driven reader (state machine with current object, object stack, structure flag) of the model: parse(toXml g) = norm g for every well-formed generation, where WfGen is proved to be EXACTLY the weakest condition (iff) and norm is the documented representation shift (last-modification dates written but not read, file entries sorted by format, root hash path '.', ignore list de-duplicated / defaulted); the reader never returns an unsupported format or a record named '.'; norm is idempotent; equal element trees give equal normal forms (an independent reader of the infoset extracts the same values); chain files read back as written and appending an entry leaves the earlier ones unchanged; sizes including 0 and an author named '-' round-trip (the former defects). Tie: random well-formed generations and chains built as ascmhl objects -> write_hash_list/write_chain -> the tool's reader AND an independent ElementTree reader, compared field by field with what was written and with the model's tree / parse / norm; strings with XML specials, non-ASCII, astral, NFC/NFD, U+2028/2029, leading/trailing/multiple spaces.",
-        "note": "The lexical XML layer (lxml/libxml2 escaping, encoding, pretty printing) is exercised by the tie, not modelled; hash dates are compared as instants. " + COMMON_NOTE,
+        "note": "The lexical XML layer (lxml/libxml2 escaping, encoding, pretty printing) is exercised by the tie, not modelled; hash dates are compared as instants.  C19seq: info after arbitrary runs lists exactly 1..n; on nested trees exactly the loaded generations of every history in pre-order; info -sf lines after sealing and after further (altering or not) runs are the entries C04 predicts." + COMMON_NOTE,
         "technique": "Lean 4 proof (fold over the event list, per-subtree lemmas, invariant of the reader) + object-level write/read differential with an independent reader",
         "design_ref": "7 C10",
     },
@@ -122,7 +122,7 @@ CLAIMS = {
     },
     "C15": {
         "text": "Theorems about the write protocol of the repaired code (manifest and chain each written to <name>.tmp and moved into place with an atomic replace; children before parents) for EVERY crash state (every prefix of the operations, the last write torn at any byte) and every file system: every other path keeps its bytes (all previously committed manifests, all media); the chain is the old one or the complete new one, never partial; the manifest is absent or complete; a new chain implies a complete manifest; the only partial files are the two temporaries, which the loader never looks at; stale temporaries of an earlier crash change nothing; for several histories the crash state is some complete commits followed by one interrupted commit, and a parent's chain is new only if all its children's commits are complete; with at least one prior generation no crash state is refused with 32. The residual is a theorem too: a FIRST-ever create has crash states (after mkdir / between the two replaces) that every command refuses with 32 - recorded as known finding D6b because C05 demands exactly that refusal. Tie/monitor: the recorded file-system operations of the real create must be accepted by the model's protocol automaton; every crash state is materialised on a copy of the pre-state and examined with info/verify (committed manifests identical, chain parses and lists them, no partial generation visible).",
-        "note": "Process kill, not power loss (no reordering of writes); os.replace atomic. " + COMMON_NOTE,
+        "note": "Process kill, not power loss (no reordering of writes); os.replace atomic.  Two enumerations on the real code: kill states (every prefix of the recorded operations, last write whole/absent/torn, and the same prefixes with user-space buffers lost) and interruptions that unwind through the tool's handlers (Ctrl-C / failing system call at every mutating call); each state is examined with info, verify and a following create (history loads, info shows exactly what the chain lists, the chain stays gap-free). D17 (unlisted leftover manifest) was found and repaired through this; C06.interrupted_generation_absent is the corresponding theorem." + COMMON_NOTE,
         "technique": "Lean 4 proof (phase characterisation of every crash state) + operation-trace refinement + exhaustive crash-state replay on the implementation",
         "design_ref": "7 C15",
     },
